@@ -49,6 +49,8 @@ PARTIAL = {
     "C14.quote_roundtrip_partial": "full statement (quote_roundtrip_statement) fails on postgresql/mysql/mariadb for names containing '%' "
     "(written '%%' in --sql scripts, finding C14-PERCENT); C14.delimit_roundtrip is the unconditional theorem about delimiter doubling",
     "C14.needs_quotes_partial": "names ending in a newline excluded (SQLAlchemy's LEGAL_CHARACTERS '$' quirk)",
+    "Spec.Ident.forcedQuoted": "the clause 'a name passed as quoted_name(quote=True) occurs as a delimited identifier token' is part of "
+    "c14Ok (evaluated on every statement the implementation writes) but not of `Good`, i.e. it is not covered by a theorem",
     "C14.stmt_*": "every stmt_ theorem is universally quantified over names/schemas/opaque texts/reserved-word predicates but assumes "
     "NameOK (non-empty, no '%' on the %-doubling dialects, no TAB, no trailing newline, not quoted_name(quote=False)) and okText for "
     "the SQLAlchemy-rendered texts; it speaks about `compiled statement ++ command terminator`, the TAB/strip post-processing of "
@@ -78,6 +80,9 @@ RULE = (
     "new_column_name, comment, autoincrement} x 3 existing_* patterns and MSSQL drop_column with every subset of mssql_drop_* flags, "
     "x dialect x all five schema kinds, random name classes; every statement of a multi-statement op is judged by the Lean "
     "specification against the table/schema/column the OPERATION named (not what the construct object carries) "
+    "fifth stream 'sequences': two operations emitted in ONE fresh MigrationContext in which the same schema / table text is given "
+    "first in one object form and later in another (all ordered pairs of plain str, quoted_name(quote=None), quoted_name(quote=True); "
+    "dotted schema text; plain table text), each statement judged against the operation that wrote it; "
     "fourth stream 'sa-ops': operations whose statements SQLAlchemy's own constructs compile (create/drop table/index incl. "
     "if_exists, mssql_include/postgresql_include, constraints, table comments, bulk_insert incl. MSSQL SET IDENTITY_INSERT, PG "
     "exclude constraint, add_column with column-level CHECK/FK/index/comment/unique/constraint-carrying type/attached column, "
